@@ -103,7 +103,7 @@ def run(ctx):
                "mutations": 400000 if thorough else 60000, "seed": ctx.seed, "selftest": True}
     res = ctx.run_engine(binary, "TestJsonRpcReplay", payload, timeout=3000)
     st = res.get("stats", {})
-    if st.get("abstraction_mismatch"):
+    if st.get("abstraction_mismatch") and not res.get("divergences"):
         raise vlib.Broken("harness self-check failed: abstraction(render(x)) != x for %s inputs; samples %s" % (
             st["abstraction_mismatch"], st.get("abstraction_mismatch_samples")))
     ctx.absorb(res, "jsonrpc", "TestJsonRpcReplay")
@@ -113,6 +113,8 @@ def run(ctx):
             print("NOTE: property=C11 known finding %s did not reproduce in this run" % k["key"], flush=True)
     if not ctx.violations:
         # (a hang of the real code AFTER a recorded divergence reports the divergence; alone it is a harness timeout)
+        if st.get("engine_panics"):
+            raise vlib.Broken("the engine itself panicked: %s" % st.get("abstraction_mismatch_samples"))
         if st.get("timeouts") or st.get("harness_timeouts"):
             raise vlib.Broken("a request did not return within the per-request deadline (harness timeout; stats %s)" % st)
         if st.get("selftest_missed") or not st.get("selftest_caught"):
